@@ -927,4 +927,15 @@ func (t *Trans) takeSnapshots(fr *Frame, callee string) {
 			}
 		}
 	}
+	// assume-after <callee> label: e  -- an ASSUMED fact about the state right after calls to that callee, written
+	// with the caller's variables (for library calls whose effect depends on a function argument, e.g. sort.Slice
+	// and its less function). Listed in the evidence as an assumption.
+	for _, aa := range t.topC.Extra["assume-after"] {
+		if !aa.IsL || len(aa.List) != 3 || !strings.HasSuffix(callee, aa.List[0].Atom) {
+			continue
+		}
+		sc := &SpecCtx{t: t, fr: fr, st: fr.st, old: fr.entrySt, at: fr.curBlock}
+		t.assume(fr.curReach, sc.expandBool(aa.List[2]))
+		t.trustedUsed[t.topC.Key+"#"+aa.List[1].Atom+" (assumed after "+aa.List[0].Atom+")"] = true
+	}
 }
